@@ -2,7 +2,9 @@
    fact printer are those of store_driver.ml; in addition, per transaction, the tokens
      I:<store>:<ids>  QS:<store>:<ids>      = query_ids (IterateIds / sorted QueryIds use the same child filter)
      LF:<store>:<id>:<field>:<val>          = get_field through <store> for every loadable id (the child sees the
-                                              parent's fields), isSystem as b0/b1 *)
+                                              parent's fields), isSystem as b0/b1
+     QP:<store>:<api>:<filter>:<sort>:<dir>:<skip>:<limit>:<count>:<ids>   paged / sorted / counted queries of C15
+                                              (c15_paged_tokens below; Store/Paging.v) *)
 let name_of_string (s : string) : n list =
   List.init (String.length s) (fun i -> n_of_int (Char.code s.[i]))
 let string_of_name (l : n list) : string =
@@ -133,6 +135,69 @@ let facts (sch : sdef list) (st : state) : string list =
   ) sch;
   List.sort_uniq compare !out
 
+(* ---- C15: paged / sorted / counted queries (tokens QP:..., same rule as c15Queries in
+   harness/cmd/storageharness/c15_paging.go - keep them in step).  The answers come from the transcribed scan loops
+   sorting_scan / unsorted_scan / cursor_scan of Store/Paging.v. *)
+let c15_in_family (sch : sdef list) (d : sdef) : bool =
+  match d.sd_parent with
+  | Some _ -> true
+  | None -> List.exists (fun c -> match c.sd_parent with Some p -> p = d.sd_name | None -> false) sch
+
+let c15_paged_tokens (sch : sdef list) (st : state) (buf : Buffer.t) : unit =
+  List.iter (fun d ->
+    if c15_in_family sch d then begin
+      let rootn = (match d.sd_parent with Some p -> p | None -> d.sd_name) in
+      match find_store sch rootn with
+      | None -> ()
+      | Some rd ->
+        if rd.sd_fields <> [] then begin
+          let nm = string_of_name d.sd_name in
+          let first = fst (List.hd rd.sd_fields) in
+          let last = fst (List.nth rd.sd_fields (List.length rd.sd_fields - 1)) in
+          let own = (match d.sd_parent, d.sd_fields with Some _, (f, _) :: _ -> Some f | _ -> None) in
+          let ids = ids_of st rootn in
+          let n = List.length ids in
+          (* the filter value: the last root field of the first root entity (id order) holding a string *)
+          let fv = List.fold_left (fun acc i ->
+            match acc with
+            | Some _ -> acc
+            | None -> (match get_field sch st rootn i last with FStr w -> Some w | _ -> None)) None ids in
+          if n > 0 then begin
+            let emit api flt srt asc skip limit =
+              let flt_s = (match flt with QTrue -> "T" | QFieldEq (f, v) -> "E=" ^ string_of_name f ^ "=" ^ hex_of_bytes v) in
+              let srt_s = (match srt with Some f -> string_of_name f | None -> "-") in
+              let lim_s = (match limit with Some l -> string_of_int l | None -> "n") in
+              let lim = (match limit with Some l -> Some (nat_of_int l) | None -> None) in
+              let sk = nat_of_int skip in
+              let (page, count) =
+                (match api, srt with
+                 | "i", _ -> (cursor_scan sch st d.sd_name flt sk lim, "-")
+                 | _, Some f -> let (p, c) = sorting_scan sch st d.sd_name flt f asc sk lim in (p, string_of_int (int_of_nat c))
+                 | _, None -> let (p, c) = unsorted_scan sch st d.sd_name flt sk lim in (p, string_of_int (int_of_nat c))) in
+              Buffer.add_string buf (Printf.sprintf " QP:%s:%s:%s:%s:%s:%d:%s:%s:%s" nm api flt_s srt_s (if asc then "a" else "d")
+                skip lim_s count (String.concat "," (List.map hex_of_bytes page))) in
+            let filters = QTrue :: (match fv with Some v -> [QFieldEq (last, v)] | None -> []) in
+            List.iter (fun flt ->
+              let full = (flt = QTrue) in   (* the selective filter gets a shorter list *)
+              let p1 = if full then [(0, None); (0, Some 1); (0, Some 2); (1, None); (1, Some 1)] @ (if n - 1 > 2 then [(0, Some (n - 1))] else [])
+                       else [(0, None); (0, Some 1); (1, Some 1)] in
+              let p2 = if full then [(0, None); (0, Some 1); (1, Some 2)] else [(0, Some 1)] in
+              let p3 = if full then [(0, None); (0, Some 2); (1, Some 1)] else [(0, Some 2)] in
+              let p4 = if full then [(0, Some 1); (1, Some 1); (1, None)] else [(1, Some 1)] in
+              let p5 = if full then [(0, Some 1); (1, Some 2)] else [(1, Some 2)] in
+              List.iter (fun (sk, lim) -> emit "q" flt (Some first) true sk lim) p1;
+              List.iter (fun (sk, lim) -> emit "q" flt (Some last) false sk lim) p2;
+              (match own with
+               | Some f -> List.iter (fun (sk, lim) -> emit "q" flt (Some f) true sk lim) p3
+               | None -> ());
+              List.iter (fun (sk, lim) -> emit "q" flt None true sk lim) p4;
+              List.iter (fun (sk, lim) -> emit "i" flt None true sk lim) p5) filters;
+            emit "c" QTrue (Some first) true 0 (Some 1);
+            emit "c" (match fv with Some v -> QFieldEq (last, v) | None -> QTrue) (Some last) false 1 (Some 1)
+          end
+        end
+    end) sch
+
 let () =
   let fuel = nat_of_int 64 in
   iter_lines (fun line ->
@@ -177,6 +242,7 @@ let () =
             let sysv = (match get_field sch !st d.sd_name i isSystemF with FBool true -> "b1" | _ -> "b0") in
             Buffer.add_string buf (Printf.sprintf " LF:%s:%s:isSystem:%s" nm (hex_of_bytes i) sysv))
             (find_ids sch !st d.sd_name)) sch;
+        c15_paged_tokens sch !st buf;
         Buffer.add_string buf " ST";
         List.iter (fun f -> Buffer.add_char buf ' '; Buffer.add_string buf f) (facts sch !st);
         Buffer.add_string buf " | "
